@@ -62,7 +62,10 @@ class Workspace:
     """A scratch directory with files; removed on close()."""
 
     def __init__(self, files: dict | None = None):
-        self.root = tempfile.mkdtemp(prefix="pyvc_ws_")
+        # not under /tmp: the repository's own test-suite indexes /tmp recursively in one test
+        base = os.environ.get("PYVC_SCRATCH", "/var/tmp/pyvc_scratch")
+        os.makedirs(base, exist_ok=True)
+        self.root = tempfile.mkdtemp(prefix="ws_", dir=base)
         for name, text in (files or {}).items():
             self.write(name, text)
 
